@@ -55,7 +55,13 @@ CLAIMS = {
                  "prints when a key format is dropped), parsed_persist (keys never vanish in a parsed playlist), segment_lines (one segment through "
                  "C01.segment_faithful), segments_loop, built_reparsed + validOf_transfer (build() on the re-parsed segments gives the same segments and passes "
                  "validation), hdr_builder. media_roundtrip / media_fixed_point - the same through to_string() and the text parser, and byte-identical second "
-                 "serialisation, under the per-line hypothesis LineRT (each written line's text classifies back to that line). k2_counterexample - the statement "
+                 "serialisation, under the per-line hypothesis LineRT (each written line's text classifies back to that line). media_roundtrip_wf - LineRT "
+                 "discharged line kind by line kind (Proofs/LineRT*, TagRT, WrittenRT.written_lines_rt) from conditions on the value (MediaWF). "
+                 "media_roundtrip_parsed - those conditions DERIVED for every playlist the parser returns (Proofs/ParsedRT, ParsedWF, ParsedMedia: raw lines are "
+                 "trimmed single lines, unquote never yields a quote or line end, integers < 2^64, IV < 2^128, 1-9 one-byte versions, URI lines and unknown tags "
+                 "classify the same way again; invariant StGood through the parser's loop and build): for every string s, parse s = ok p, NoK2 p and MediaOpen p "
+                 "imply parse (to_string p) = ok p, where MediaOpen = Rust's decimal formatting of each EXTINF duration reads back (FL2, trusted) and the "
+                 "EXT-X-START / EXT-X-DATERANGE lines read back (not proved at line level). k2_counterexample - the statement "
                  "without NoK2 is false (recorded finding K2); k3_repaired - the former finding K3 now round-trips; control_roundtrip - non-vacuity. Tie + "
                  "oracle: EVERY key/map/segment event sequence over an 11-letter alphabet up to the length bound, long random histories with IV / "
                  "KEYFORMATVERSIONS, generated playlists with all 17 tags and the fixtures, through try_from -> to_string -> try_from -> to_string on library and "
@@ -249,9 +255,11 @@ CLAIMS = {
                  "effective_ivs_lines (segment j's keys = keys in effect with the rule applied for number media_sequence + j), show_iv_free / stripIv_spec / "
                  "stripIv_completeIv (the writer never prints a derived IV and announces the key as written). Tie: random key histories x media sequences "
                  "up to the 64-bit limit placed at any line boundary on the real library and the model (numbers and effective IVs must agree), plus an "
-                 "independent Python computation of numbers/IVs and a scan of the serialised text."),
-        "design_ref": "DESIGN.md §7 C07",
-        "note": "Builder-made playlists with explicit numbers: recorded finding K7 (C20).",
+                 "independent Python computation of numbers/IVs and a scan of the serialised text; MediaPlaylistBuilder scripts (push_segment / segments) "
+                 "with implicit, permuted, partly and randomly explicit segment numbers and per-segment keys: numbering and effective IV of every built segment. "
+                 "k7_counterexample: with media_sequence > 0 an explicitly numbered built segment keeps its slot index as number (recorded finding K7)."),
+        "design_ref": "DESIGN.md §7 C07, §0.5",
+        "note": "K7 (explicit numbers are slot indices; inconsistent numbering of built playlists when media_sequence > 0) reported as KNOWN-FINDING.",
     },
     "C08": {
         "technique": "Lean 4 proof (continuity validator <-> well-chained; build loop = declarative resolution; n@start text round trip) + exhaustive small-scope differential run",
